@@ -152,12 +152,13 @@ class TableLocalAnomalyScore(BaseLocalAnomalyScore):
 class FunctionLocalAnomalyScore(BaseLocalAnomalyScore):
     """score(s, a, b, e) = small integer function of the cut and a key (ties, no table)."""
 
-    def __init__(self, key=0, modulus=5, msize=1, offset=0, ncols=1):
+    def __init__(self, key=0, modulus=5, msize=1, offset=0, ncols=1, int_output=False):
         self.key = key
         self.modulus = modulus
         self.msize = msize
         self.offset = offset  # scores are value - offset, hence possibly negative
         self.ncols = ncols
+        self.int_output = int_output  # counts / ranks: the score array is integer-typed (a rank statistic built from boolean sums)
         super().__init__()
 
     @property
@@ -173,7 +174,8 @@ class FunctionLocalAnomalyScore(BaseLocalAnomalyScore):
 
     def _evaluate(self, cuts):
         s, a, b, e = cuts[:, 0], cuts[:, 1], cuts[:, 2], cuts[:, 3]
-        cols = [(self.value(self.key + 17 * j, self.modulus, s, a, b, e) - self.offset).astype(float) for j in range(self.ncols)]
+        cols = [(self.value(self.key + 17 * j, self.modulus, s, a, b, e) - self.offset).astype(np.int64 if self.int_output else float)
+                for j in range(self.ncols)]
         return np.column_stack(cols)
 
 
